@@ -4,6 +4,7 @@
 #   vp run --with-repo -- tools/run_benign.sh
 cd "$(dirname "$0")/.."
 REPO="${VP_RUN_REPO:-/repo}"
+mkdir -p build
 bad=0
 for d in benign/benign*.diff; do
   git -C $REPO checkout -q -- .
